@@ -119,6 +119,10 @@ def run_shard(desc):
         doc = [[a] for a, b in ps if b is ABSENT and a is not ABSENT] + [[]]
         batch(sh, f"$[?@[0] {op} @[1]]", doc)
         batch(sh, f"$[?@[5] {op} @[0]]", doc)
+        # index selectors applied to what is not an array (strings above all) produce nothing
+        batch(sh, f"$[?@.l[0] {op} @.r[-1]]", obj_doc(ps))
+        batch(sh, f"$[?@[0] {op} @[-1]]", [a for a in gdocs.kinds()])
+        batch(sh, f"$[?@.l[0] {op} @.l]", obj_doc(ps))
     elif part == "value":
         batch(sh, f"$[?value(@.l) {op} value(@.r)]", obj_doc(ps))
         batch(sh, f"$[?value(@.l) {op} @.r]", obj_doc(ps))
